@@ -983,6 +983,56 @@ fn eval_c13(job: &Job) -> JobResult {
             k += stop_stride;
         }
     }
+    // chains: a run that was itself resumed is interrupted again and resumed a second time. The
+    // resumed run counts its own iterations from 1, so it stores a checkpoint before its own
+    // c-th, 2c-th ... iteration; the second resume starts from the last one stored (or from where
+    // the first resume started, if the second run did not reach its first checkpoint).
+    if res.violations.is_empty() {
+        'chain: for &c in &intervals {
+            let mut k1s: Vec<usize> = vec![1, c, c + 1, n / 2];
+            k1s.retain(|&k| k >= 1 && k <= n);
+            k1s.sort();
+            k1s.dedup();
+            for &k1 in &k1s {
+                let b1 = if k1 >= c { c * (k1 / c) } else { 1 };
+                let left = n - b1 + 1;
+                let mut k2s: Vec<usize> = vec![1, c.saturating_sub(1), c, c + 1, 2 * c - 1, 2 * c, 2 * c + 1];
+                k2s.retain(|&k| k >= 1 && k <= left);
+                k2s.sort();
+                k2s.dedup();
+                for &k2 in &k2s {
+                    let file = format!("{}/chain-{}-{}-{}.json", dir, c, k1, k2);
+                    let _ = std::fs::remove_file(&file);
+                    let mut cfg = base.clone();
+                    cfg.checkpoint_file = Some(file.clone());
+                    cfg.checkpoint_interval = Some(c);
+                    cfg.stop_at_iter = Some(k1);
+                    let (_sa, a) = run_seq(p, &cfg);
+                    cfg.stop_at_iter = Some(k2);
+                    let (sb, b) = run_seq(p, &cfg);
+                    cfg.stop_at_iter = None;
+                    let (sc, cc) = run_seq(p, &cfg);
+                    res.loom_iterations += (a.sigs.len() + b.sigs.len() + cc.sigs.len()) as u64;
+                    let b2 = if k2 >= c { b1 + c * (k2 / c) - 1 } else { b1 };
+                    let expect = &s1.sigs[b2 - 1..];
+                    let mid_ok = sb.verdict == Verdict::User(9999) && b.sigs.len() == k2 && b.sigs[..k2 - 1] == s1.sigs[b1 - 1..b1 + k2 - 2];
+                    if !mid_ok || sc.verdict != Verdict::Ok || cc.sigs[..] != expect[..] {
+                        let d = (0..cc.sigs.len().min(expect.len())).find(|&i| cc.sigs[i] != expect[i]);
+                        res.violations.push(viol(
+                            "second_resume_differs",
+                            format!("c={} k1={} k2={}", c, k1, k2),
+                            format!("the second resumed run visits executions {}..={} of the uninterrupted run, in order", b2, n),
+                            format!("middle run ok: {}; {} iterations, verdict {}, first difference at iteration {:?}", mid_ok, cc.sigs.len(), sc.verdict.short(), d.map(|x| x + 1)),
+                            json!({"expected_len": expect.len()}),
+                        ));
+                        break 'chain;
+                    }
+                    res.traces_validated += cc.sigs.len() as u64;
+                    let _ = std::fs::remove_file(&file);
+                }
+            }
+        }
+    }
     // the same with the branch budget set to the exact need of the program: a resumed run must
     // not need more branches than the uninterrupted one
     {
@@ -1799,6 +1849,37 @@ fn eval_c19(job: &Job) -> JobResult {
                 }
                 res.traces_validated += r2.iters;
             }
+        }
+    }
+
+    // (a4) regions that involve two threads. The flag belongs to the execution, not to a thread:
+    // a region a child opens and never closes lasts until the end of the execution (also after
+    // that child finished); a region main opens before spawning may be closed by a child, and a
+    // region a child opens may be closed by main after the joins.
+    {
+        let main_end = p.threads[0].len();
+        let mut cross: Vec<(Program, String)> = vec![];
+        for t in 1..k.min(3) {
+            for i in 0..=p.threads[t].len() {
+                cross.push((crate::families::insert_op(p, t, i, K::StopExploring.into()), format!("T{} stop@{} never closed", t, i)));
+                let q = crate::families::insert_op(p, 0, main_end, K::Explore.into());
+                cross.push((crate::families::insert_op(&q, t, i, K::StopExploring.into()), format!("T{} stop@{} main explore@end", t, i)));
+                let q = crate::families::insert_op(p, t, i, K::Explore.into());
+                cross.push((crate::families::insert_op(&q, 0, 0, K::StopExploring.into()), format!("main stop@0 T{} explore@{}", t, i)));
+            }
+        }
+        for (q, name) in cross {
+            let (s2, r2) = run_ctl(&q, &cfg);
+            variants += 1;
+            res.loom_iterations += r2.iters;
+            if s2.verdict != Verdict::Ok {
+                push(&mut res, "control_verdict", name.clone(), "Ok", format!("{} ({})", s2.verdict.short(), s2.message.lines().next().unwrap_or("")));
+                continue;
+            }
+            if let Some(v) = &r2.viol {
+                push(&mut res, "explored_inside_region", name.clone(), "the region is a property of the execution: it is opened and closed by whichever thread makes the call, and stays open if nobody closes it", v.clone());
+            }
+            res.traces_validated += r2.iters;
         }
     }
 
